@@ -76,6 +76,14 @@ type purity struct {
 
 // rFieldWrite: does ins write a field of a result-relevant type? returns description.
 func (p *purity) rFieldWrite(ins ssa.Instruction) string {
+	return p.rFieldWriteF(ins, true)
+}
+
+// rFieldWriteF: with skipFresh, the initialisation of a freshly allocated
+// object is not counted (it is not shared state yet); a tainted VALUE stored
+// into such an object is counted all the same (skipFresh=false), since the
+// object is published later.
+func (p *purity) rFieldWriteF(ins ssa.Instruction, skipFresh bool) string {
 	desc := func(addr ssa.Value) string {
 		n, f := core.FieldOf(addr)
 		if n == nil {
@@ -90,7 +98,7 @@ func (p *purity) rFieldWrite(ins ssa.Instruction) string {
 			return ""
 		}
 		// a freshly allocated object being initialised is not shared state yet
-		if fa, ok := addr.(*ssa.FieldAddr); ok {
+		if fa, ok := addr.(*ssa.FieldAddr); ok && skipFresh {
 			if al, ok := fa.X.(*ssa.Alloc); ok && al.Heap {
 				return ""
 			}
@@ -397,6 +405,9 @@ func c05pure(c *core.Ctx, r *core.Report) {
 					fmt.Printf("DEBUG %s: tainted branch in block %d (%s) cond=%s why=%s\n", name, b.Index, b.Comment, core.DescribeValue(iff.Cond, 0), tv[iff.Cond])
 				}
 			}
+			for v, why := range tv {
+				fmt.Printf("DEBUG %s: tainted %s = %s : %s\n", name, v.Name(), trunc(v.String(), 80), why)
+			}
 			for b, why := range regions {
 				fmt.Printf("DEBUG %s: region block %d (%s): %s\n", name, b.Index, b.Comment, why)
 			}
@@ -449,7 +460,10 @@ func c05pure(c *core.Ctx, r *core.Report) {
 				if val == nil || tv[val] == "" {
 					continue
 				}
-				if d := p.rFieldWrite(ins); d != "" {
+				if os.Getenv("PURE_DEBUG") != "" && strings.Contains(c.FuncName(fn), os.Getenv("PURE_DEBUG")) {
+					fmt.Printf("DEBUG store of tainted %s at %s -> %q\n", val.Name(), c.Pos(ins.Pos()), p.rFieldWriteF(ins, false))
+				}
+				if d := p.rFieldWriteF(ins, false); d != "" {
 					n++
 					r.Fail("R05.pure", fmt.Sprintf("%s|store#%d", c.FuncName(fn), n), c.Pos(ins.Pos()), fmt.Sprintf("a value derived from %s is stored in result-relevant field %s", tv[val], d))
 				}
